@@ -24,7 +24,7 @@ package boltz
 //@   ensures[nothing-else-changes] lkOnly1(lsB(symbol, tx, str(id)), str(link))
 //@   ensures[failure-changes-no-entry] result != nil ==> plainSame()
 //@ func (*LinkedSetSymbol).RemoveLink
-//@   props C05 C07
+//@   props C05 C07 C06
 //@   errflow
 //@   nosafety
 //@   modifies bktHas, any errorz.ErrorHolderImpl.Err
